@@ -331,6 +331,7 @@ class NeedIndirect(NeedState):
 
         """
         parms = super(NeedIndirect, self)._resolve( **kwa)
+        stateField = parms['stateField']  # as resolved by NeedState._resolve
 
         #convert goal path to share and create field if necessary
         parms['goal'] = goal = self._resolvePath(ipath=goal,
